@@ -1154,3 +1154,127 @@ Proof.
   - eapply Forall_impl; [|exact H0]. intros a E. rewrite E. cbn [Nat.mul]. lia.
   - exists st', G. auto.
 Qed.
+
+(* ------------------------------------------------------------------ how much the shared memory receives *)
+
+(* transitions one individual's turn stores in the shared memory *)
+Definition stored_per_turn (c : cfg) : nat :=
+  match lp c with
+  | Off | MAOff => (evo_steps c / num_envs c - (nstep c - 1)) * num_envs c
+  | Bandit => episode_steps c
+  | On | MAOn | Offline => 0
+  end.
+
+Lemma rollout_bandit_added c h : nstep c = 0 -> forall n m r,
+  added (fst (rollout_bandit c h n m r)) = added m + n.
+Proof.
+  intros Hn. induction n as [|n IH]; intros m r; cbn [rollout_bandit fst]; [lia|].
+  rewrite IH. unfold mem_add. rewrite Hn. cbn [Nat.eqb orb added]. lia.
+Qed.
+
+Lemma rollout_stores_lemma c h m :
+  (lp c = Bandit -> nstep c = 0) ->
+  added (fst (rollout c h m)) = added m + stored_per_turn c.
+Proof.
+  intros Hb. unfold stored_per_turn.
+  destruct (lp c) eqn:E; try (unfold rollout; rewrite E; cbn [fst]; lia).
+  - apply turn_stores_lemma. left. exact E.
+  - unfold rollout. rewrite E. apply rollout_bandit_added. apply Hb. reflexivity.
+  - apply turn_stores_lemma. right. exact E.
+Qed.
+
+Lemma train_pop_added c : (lp c = Bandit -> nstep c = 0) -> forall pop hps m,
+  added (snd (fst (train_pop c hps pop m))) = added m + length pop * stored_per_turn c.
+Proof.
+  intros Hb. induction pop as [|a pop IH]; intros hps m; cbn [train_pop]; [cbn; lia|].
+  pose proof (rollout_stores_lemma c (hd {| ls := 1; bs := 1 |} hps) m Hb) as R.
+  destruct (rollout c (hd {| ls := 1; bs := 1 |} hps) m) as [m1 r]. cbn [fst] in R.
+  specialize (IH (tl hps) m1). destruct (train_pop c (tl hps) pop m1) as [[p2 m2] rs].
+  cbn [fst snd length] in *. lia.
+Qed.
+
+Lemma gen_memo c st inp : memo (fst (gen c st inp)) = snd (fst (train_pop c (g_hps inp) (pop st) (memo st))).
+Proof.
+  unfold gen. destruct (train_pop c (g_hps inp) (pop st) (memo st)) as [[p1 m1] rs]. cbn [fst snd].
+  destruct (early_stop c (eval_pop p1 (g_fit inp))); reflexivity.
+Qed.
+
+Lemma gens_n_added c inp : (lp c = Bandit -> nstep c = 0) -> 1 <= tour_pop c -> forall n st g,
+  length (pop st) = tour_pop c ->
+  added (memo (gens_n n c st inp g)) = added (memo st) + n * (tour_pop c * stored_per_turn c).
+Proof.
+  intros Hb H1. induction n as [|n IH]; intros st g HL; cbn [gens_n]; [lia|].
+  rewrite IH by (apply gen_length; assumption).
+  rewrite gen_memo, train_pop_added by exact Hb. rewrite HL. lia.
+Qed.
+
+(* after the G generations a call runs, the shared memory has received G x population x (transitions per turn):
+   per turn (iterations - (n_step - 1)) x num_envs off-policy, episode_steps for the bandits, nothing on-policy/offline *)
+Lemma memory_fill_lemma c inp fuel st st' G :
+  (lp c = Bandit -> nstep c = 0) -> 1 <= tour_pop c -> length (pop st) = tour_pop c ->
+  run fuel c st inp 0 = Some (st', G) ->
+  added (memo st') = added (memo st) + G * (tour_pop c * stored_per_turn c).
+Proof.
+  intros Hb H1 HL Hr. destruct (run_is_gens_n c inp _ _ _ _ _ Hr) as (n & -> & -> & _).
+  apply gens_n_added; assumption.
+Qed.
+
+(* ------------------------------------------------------------------ evolution schedule of train_bandits *)
+
+Lemma gen_tested c st inp :
+  o_tested (snd (gen c st inp)) = eval_pop (fst (fst (train_pop c (g_hps inp) (pop st) (memo st)))) (g_fit inp).
+Proof.
+  unfold gen. destruct (train_pop c (g_hps inp) (pop st) (memo st)) as [[p1 m1] rs]. cbn [fst].
+  destruct (early_stop c (eval_pop p1 (g_fit inp))); reflexivity.
+Qed.
+
+Lemma gen_evo c st inp :
+  target c = None ->
+  evo_count (fst (gen c st inp)) =
+    if evolves c st (o_tested (snd (gen c st inp))) then S (evo_count st) else evo_count st.
+Proof.
+  intros Ht. unfold gen. destruct (train_pop c (g_hps inp) (pop st) (memo st)) as [[p1 m1] rs].
+  unfold early_stop. rewrite Ht. cbn [fst snd evo_count o_tested]. reflexivity.
+Qed.
+
+Lemma gens_n_evo c S0 inp :
+  lp c = Bandit -> evolve c = true -> target c = None -> 0 < evo_steps c -> 1 <= tour_pop c ->
+  stream_ok (hp_steps c S0) (tour_pop c) inp ->
+  forall n st g,
+  length (pop st) = tour_pop c -> Forall (fun a => cur a = g * S0) (pop st) ->
+  evo_count st = Nat.min g (g * S0 / evo_steps c) ->
+  evo_count (gens_n n c st inp g) = Nat.min (g + n) ((g + n) * S0 / evo_steps c).
+Proof.
+  intros Hl He Ht Hk H1 Hs. induction n as [|n IH]; intros st g HL HF Hc; cbn [gens_n].
+  - rewrite Nat.add_0_r. exact Hc.
+  - replace (g + S n) with (S g + n) by lia.
+    destruct (Hs g) as [Hok Hps].
+    assert (Hne : pop st <> []) by (destruct (pop st); [cbn in HL; lia|discriminate]).
+    assert (HF1 : Forall (fun a => cur a = S g * S0) (pop (fst (gen c st (inp g))))).
+    { apply (gen_inv c (hp_steps c S0) (fun g a => cur a = g * S0) (uniform_step c S0) (fun g a i E => E)); auto.
+      rewrite HL. exact Hps. }
+    assert (HL1 : length (pop (fst (gen c st (inp g)))) = tour_pop c) by (apply gen_length; assumption).
+    apply IH; auto.
+    rewrite gen_evo by exact Ht. rewrite gen_tested.
+    pose proof (train_eval_inv c (hp_steps c S0) (fun g a => cur a = g * S0) (uniform_step c S0) g
+                  (pop st) (g_hps (inp g)) (memo st) (g_fit (inp g)) Hok HF) as HT.
+    set (p2 := eval_pop (fst (fst (train_pop c (g_hps (inp g)) (pop st) (memo st)))) (g_fit (inp g))) in *.
+    assert (Hhd : cur (hd dflt p2) = S g * S0).
+    { assert (L2 : length p2 = tour_pop c) by (unfold p2; rewrite eval_pop_length, train_pop_length; exact HL).
+      destruct p2 as [|a p]; [cbn in L2; lia|]. inversion HT; subst. assumption. }
+    unfold evolves. rewrite He, Hl, Hhd, Hc. cbn [andb]. apply ck_arith. exact Hk.
+Qed.
+
+(* train_bandits with tournament + mutation: after G generations of S = episode_steps steps exactly
+   min(G, G*S // evo_steps) evolutions happened: one per crossed multiple of evo_steps, at most one per generation *)
+Lemma bandit_evolution_count_lemma c S0 inp pop0 fuel st' G :
+  lp c = Bandit -> evolve c = true -> target c = None -> 0 < evo_steps c -> 1 <= tour_pop c ->
+  length pop0 = tour_pop c -> Forall (fun a => cur a = 0) pop0 ->
+  stream_ok (hp_steps c S0) (tour_pop c) inp ->
+  run fuel c (init_state pop0) inp 0 = Some (st', G) ->
+  evo_count st' = Nat.min G (G * S0 / evo_steps c).
+Proof.
+  intros Hl He Ht Hk H1 HL H0 Hs Hr.
+  destruct (run_is_gens_n c inp _ _ _ _ _ Hr) as (n & -> & -> & _).
+  apply (gens_n_evo c S0 inp Hl He Ht Hk H1 Hs n (init_state pop0) 0); auto.
+Qed.
